@@ -13,6 +13,7 @@ func init() {
 }
 
 func checkC01(c *Ctx) {
+	checkCombinators(c) // "the current filter accepts it": Accept of the library's own filters is the documented function of (filter, object)
 	m := newCacheModel(c)
 	m.checkDoUpdate()
 	m.checkDoSync()
@@ -62,6 +63,7 @@ func init() {
 }
 
 func checkC03(c *Ctx) {
+	checkSessionTable(c) // only object frames become events: a status or bookmark frame never reaches the cache
 	checkControllerTable(c)
 	checkReadyPlumbing(c) // includes: controller cache built with the builder's filter
 	m := newCacheModel(c)
@@ -111,6 +113,7 @@ func init() {
 }
 
 func checkC13(c *Ctx) {
+	checkWatcherTable(c) // the controller calls the watcher synchronously before every select: a watcher that can block wedges the relist cycle
 	checkListHelpers(c) // a list call is bounded only by shutdown (no per-call deadline that turns a slow list into a fatal error)
 	checkNoSleep(c)
 	checkCtorChannelCapacities(c)
@@ -132,6 +135,7 @@ func init() {
 }
 
 func checkC16(c *Ctx) {
+	newCacheModel(c).checkDoList() // the list handed to OnInitialize is a private snapshot
 	checkSubscriptionTable(c) // callbacks in publication order: the subscription hand-off under the monitor forwards in order or drops, never reorders
 	for _, r := range typedRelsQuick(c) {
 		checkTypedRobustness(c, r)
@@ -174,6 +178,7 @@ func init() {
 }
 
 func checkC05(c *Ctx) {
+	checkFilterSubscriptionTable(c) // a filtered subscription takes every parent event exactly once (none discarded, none replayed)
 	checkCloneFresh(c)
 	checkCtorChannelCapacities(c)
 	checkRootForwarders(c)
@@ -219,6 +224,7 @@ func init() {
 var rootRels = []string{"", "join", "client"}
 
 func checkC12(c *Ctx) {
+	checkCtorCompletes(c)
 	checkPublisherFanout(c) // the drain counts one unsubscribe per registered subscription: nothing but the unsubscribe arm may remove one
 	checkNoSleep(c)
 	checkCtorChannelCapacities(c)
@@ -256,6 +262,7 @@ func checkC12(c *Ctx) {
 }
 
 func checkC11(c *Ctx) {
+	checkCtorCompletes(c)
 	checkCloneFresh(c) // closing one clone never closes a sibling: every Clone* call builds its own controller
 	checkRootForwarders(c)
 	checkStopWiring(c)
@@ -281,6 +288,7 @@ func typedRelsQuick(c *Ctx) []string {
 }
 
 func checkC10(c *Ctx) {
+	checkGeneratedJoinShape(c) // a join re-derives its selection from the source cache on every callback, so events its (lossy) monitor dropped heal at the next one
 	checkCtorChannelCapacities(c)
 	if c.Tier == "thorough" {
 		checkCallersVTA(c)
@@ -346,6 +354,7 @@ func init() {
 }
 
 func checkC09(c *Ctx) {
+	checkCombinators(c)
 	checkCtorChannelCapacities(c) // refilter requests are handed over one by one (rendezvous), never coalesced or dropped
 	checkNotRunningErrors(c)
 	checkRequestChannelPairing(c)
@@ -447,6 +456,10 @@ func checkC07(c *Ctx) {
 }
 
 func checkC08(c *Ctx) {
+	for _, r := range typedRelsQuick(c) {
+		checkTypedRobustness(c, r) // a typed cache read is a read of the underlying cache at that moment (nothing memoised before Ready)
+	}
+	checkClientRequestFlows(c) // the first list the controller syncs is the whole collection the server returned for the caller's own options
 	checkNotRunningErrors(c)
 	checkRequestChannelPairing(c)
 	checkFilterEquality(c)
@@ -488,6 +501,7 @@ func checkC14(c *Ctx) {
 }
 
 func checkC15(c *Ctx) {
+	checkControllerTable(c) // a relist reaches the cache as ONE sync request (readers never see a half-applied list)
 	checkAppendBases(c, []string{""}) // the snapshot starts empty
 	checkAcceptPurity(c)            // filters are shared by the cache goroutines of all subscriptions: Accept must not write
 	checkFilterSubscriptionTable(c) // a refilter is ONE cache operation (never a half-applied refilter)
